@@ -908,7 +908,8 @@ theorem register_post {fs : FS} {rank : Str → Nat} {req : Req} (hreq : ReqOK f
     (hub : (registerInternalWith req s src lazy tl).1.staleKey = false) :
     Post fs rank s (registerInternalWith req s src lazy tl).1 (rank tl.hdr.ns + 1) ∧
     (∀ t, (registerInternalWith req s src lazy tl).2 = .ok t → t = tl ∧
-       (lazy = false → ∃ l ∈ (registerInternalWith req s src lazy tl).1.typelibs, l.tl = tl)) := by
+       (lazy = false → ∃ l ∈ (registerInternalWith req s src lazy tl).1.typelibs, l.tl = tl ∧
+          (lookupTbl s.lazy tl.hdr.ns = none → l.source = src))) := by
   unfold registerInternalWith at hub ⊢
   have hfE0 := lookupTbl_none.mp habsE
   cases lazy with
@@ -971,7 +972,12 @@ theorem register_post {fs : FS} {rank : Str → Nat} {req : Req} (hreq : ReqOK f
             exact (hp.new.2 x (mem_eraseTbl.mp hx).1).imp id (fun y => Nat.lt_succ_of_lt y)
           · intro t ht
             simp only [Except.ok.injEq] at ht
-            exact ⟨ht.symm, fun _ => ⟨⟨l.source, tl⟩, by simp, rfl⟩⟩
+            refine ⟨ht.symm, fun _ => ⟨⟨l.source, tl⟩, by simp, rfl, ?_⟩⟩
+            intro hnone
+            exfalso
+            rcases hp.new.2 l hlm with h | h
+            · exact lookupTbl_none.mp hnone l h (lookupTbl_some hL).2
+            · rw [(lookupTbl_some hL).2] at h; exact Nat.lt_irrefl _ h
         | none =>
           simp only [hL] at hub ⊢
           obtain ⟨hp, hdeps⟩ := hld hub
@@ -995,7 +1001,7 @@ theorem register_post {fs : FS} {rank : Str → Nat} {req : Req} (hreq : ReqOK f
             exact (hp.new.2 l hl).imp id (fun x => Nat.lt_succ_of_lt x)
           · intro t ht
             simp only [Except.ok.injEq] at ht
-            exact ⟨ht.symm, fun _ => ⟨⟨src, tl⟩, by simp, rfl⟩⟩
+            exact ⟨ht.symm, fun _ => ⟨⟨src, tl⟩, by simp, rfl, fun _ => rfl⟩⟩
 
 theorem findVersion_first {fs : FS} {ns v : Str} {path : List Str} {f : Found}
     (h : findVersion fs ns v path = some f) : FirstWith fs (exactFileName ns v) path f := by
@@ -1082,7 +1088,7 @@ theorem require_post {fs : FS} {rank : Str → Nat} (hr : Ranked fs rank) :
           intro t ht
           obtain ⟨h1, h2⟩ := hok t ht
           subst h1
-          refine ⟨hns', ?_, h2⟩
+          refine ⟨hns', ?_, fun hl => (h2 hl).imp (fun l h => ⟨h.1, h.2.1⟩)⟩
           intro v hv
           subst hv
           simpa using hver
